@@ -401,6 +401,20 @@ func (c05Driver) Shrink(cc core.Case) []core.Case {
 			out = append(out, n)
 		}
 	}
+	if len(c.Runs) == 1 {
+		r := c.Runs[0]
+		names := sortedNames(c.texts())
+		if !isIdentity(r.Order, names) {
+			n := clone()
+			n.Runs[0].Order = names
+			out = append(out, n)
+		}
+		for _, s := range schedShrinks(r.Sched) {
+			n := clone()
+			n.Runs[0].Sched = s
+			out = append(out, n)
+		}
+	}
 	if c.Scenario != nil {
 		for _, s := range model.ShrinkScenario(c.Scenario) {
 			n := clone()
@@ -429,20 +443,6 @@ func (c05Driver) Shrink(cc core.Case) []core.Case {
 				}
 				n.Runs[i].Order = ord
 			}
-			out = append(out, n)
-		}
-	}
-	if len(c.Runs) == 1 {
-		r := c.Runs[0]
-		names := sortedNames(c.texts())
-		if !isIdentity(r.Order, names) {
-			n := clone()
-			n.Runs[0].Order = names
-			out = append(out, n)
-		}
-		for _, s := range schedShrinks(r.Sched) {
-			n := clone()
-			n.Runs[0].Sched = s
 			out = append(out, n)
 		}
 	}
